@@ -11,7 +11,217 @@ import Saltpack.Proofs.RoundTripEnc
 namespace Saltpack.Proofs
 open Saltpack Saltpack.Encrypt
 
+/-! Helper lemmas live in `Saltpack.Proofs.RTSig`; the eight statements of this
+  file are in `Saltpack.Proofs`. -/
+namespace RTSig
+
+/-! ## generic: a run over blocks that match a plan position by position -/
+
+theorem grun_zip {β : Type} (step : β → Nat → Except Err Bytes) (fin : β → Bool) :
+    ∀ (blks : List β) (plan : List (Bytes × Bool)) (n : Nat),
+      blks.length = plan.length → plan ≠ [] →
+      (∀ k b p, blks[k]? = some b → plan[k]? = some p → step b (n + k) = .ok p.1 ∧ fin b = p.2) →
+      (∀ k p, plan[k]? = some p → (p.2 = true ↔ k + 1 = plan.length)) →
+      grun step fin (blks.map some) .eof n = ⟨(plan.map (·.1)).flatten, none⟩ := by
+  intro blks
+  induction blks with
+  | nil =>
+    intro plan n hl hne
+    cases plan with
+    | nil => exact absurd rfl hne
+    | cons p pt => simp at hl
+  | cons b bt ih =>
+    intro plan n hl hne hstep hfin
+    cases plan with
+    | nil => exact absurd rfl hne
+    | cons p pt =>
+      have h0 := hstep 0 b p rfl rfl
+      have hf0 := hfin 0 p rfl
+      simp only [List.length_cons, Nat.add_right_cancel_iff] at hl
+      by_cases hpt : pt = []
+      · subst hpt
+        have hbt : bt = [] := List.length_eq_zero_iff.mp hl
+        subst hbt
+        have hf : fin b = true := by rw [h0.2]; exact hf0.2 rfl
+        show grun step fin (some b :: []) .eof n = _
+        rw [grun_final step fin b [] .eof n p.1 h0.1 hf]
+        simp [Decrypt.endOfStream]
+      · have hlen : 0 < pt.length := List.length_pos_iff.mpr hpt
+        have hf : fin b = false := by
+          rw [h0.2]
+          cases h2 : p.2 with
+          | false => rfl
+          | true =>
+            have := hf0.1 h2
+            simp only [List.length_cons] at this
+            omega
+        show grun step fin (some b :: bt.map some) .eof n = _
+        rw [grun_more step fin b _ .eof n p.1 h0.1 hf]
+        rw [ih pt (n + 1) hl hpt ?_ ?_]
+        · simp
+        · intro k b' p' hb' hp'
+          have := hstep (k + 1) b' p' (by simpa using hb') (by simpa using hp')
+          rw [show n + 1 + k = n + (k + 1) by omega]
+          exact this
+        · intro k p' hp'
+          have := hfin (k + 1) p' (by simpa using hp')
+          simp only [List.length_cons] at this
+          rw [this]
+          omega
+
+/-- index form of `chunkPlan_final` -/
+theorem chunkPlan_final_idx (v : Version) (bs : Nat) (pt : Bytes) :
+    ∀ k p, (chunkPlan v bs pt)[k]? = some p → (p.2 = true ↔ k + 1 = (chunkPlan v bs pt).length) := by
+  obtain ⟨pre, c, h, hpre⟩ := chunkPlan_final v bs pt
+  rw [h]
+  intro k p hk
+  by_cases hlt : k < pre.length
+  · rw [List.getElem?_append_left hlt] at hk
+    have hm : p ∈ pre := List.mem_of_getElem? hk
+    have := hpre p hm
+    simp [this]
+    omega
+  · rw [List.getElem?_append_right (by omega)] at hk
+    have hk0 : k - pre.length = 0 := by
+      by_cases h0 : k - pre.length = 0
+      · exact h0
+      · rw [List.getElem?_eq_none (by simp; omega)] at hk
+        cases hk
+    rw [hk0] at hk
+    simp at hk
+    subst hk
+    simp
+    omega
+
+theorem chunkPlan_ne_nil (v : Version) (bs : Nat) (pt : Bytes) : chunkPlan v bs pt ≠ [] := by
+  obtain ⟨pre, c, h, _⟩ := chunkPlan_final v bs pt
+  rw [h]; simp
+
+
 /-! ## attached signatures -/
+
+theorem attachedInput_ok (P : Prims) (v : Version) (hv : v = v1 ∨ v = v2) (hh c : Bytes) (i : Nat) (f : Bool) :
+    ∃ inp, attachedSignatureInput P v hh c i f = .ok inp := by
+  rcases hv with rfl | rfl <;> simp [attachedSignatureInput, v1, v2]
+
+theorem sign_blockStructs_spec (P : Prims) (v : Version) (signer hh : Bytes) :
+    ∀ (plan : List (Bytes × Bool)) (i : Nat) (blks : List SigBlock),
+      Sign.blockStructs P v signer hh plan i = .ok blks →
+      blks.length = plan.length ∧
+      ∀ k b p, blks[k]? = some b → plan[k]? = some p →
+        ∃ inp, attachedSignatureInput P v hh p.1 (i + k) p.2 = .ok inp ∧
+          b = ⟨P.sign signer inp, p.1, p.2⟩ := by
+  intro plan
+  induction plan with
+  | nil =>
+    intro i blks h
+    simp only [Sign.blockStructs, Except.ok.injEq] at h
+    subst h
+    simp
+  | cons p pt ih =>
+    intro i blks h
+    obtain ⟨c, f⟩ := p
+    simp only [Sign.blockStructs] at h
+    split at h
+    · rename_i b bs' hb hbs'
+      simp only [Except.ok.injEq] at h
+      subst h
+      obtain ⟨hl, hk⟩ := ih (i + 1) bs' hbs'
+      refine ⟨by simp [hl], ?_⟩
+      intro k b' p' hb' hp'
+      cases k with
+      | zero =>
+        simp only [List.getElem?_cons_zero, Option.some.injEq] at hb' hp'
+        subst hb' hp'
+        unfold Sign.blockStruct at hb
+        split at hb
+        · cases hb
+        · rename_i inp hinp
+          simp only [Except.ok.injEq] at hb
+          exact ⟨inp, hinp, hb.symm⟩
+      | succ k =>
+        simp only [List.getElem?_cons_succ] at hb' hp'
+        have := hk k b' p' hb' hp'
+        rw [show i + (k + 1) = i + 1 + k by omega]
+        exact this
+    · cases h
+    · cases h
+
+theorem sign_blockStructs_ok (P : Prims) (v : Version) (hv : v = v1 ∨ v = v2) (signer hh : Bytes) :
+    ∀ (plan : List (Bytes × Bool)) (i : Nat), ∃ blks, Sign.blockStructs P v signer hh plan i = .ok blks := by
+  intro plan
+  induction plan with
+  | nil => intro i; exact ⟨[], rfl⟩
+  | cons p pt ih =>
+    intro i
+    obtain ⟨c, f⟩ := p
+    obtain ⟨blks, hb⟩ := ih (i + 1)
+    obtain ⟨inp, hinp⟩ := attachedInput_ok P v hv hh c i f
+    refine ⟨⟨P.sign signer inp, c, f⟩ :: blks, ?_⟩
+    simp [Sign.blockStructs, Sign.blockStruct, hinp, hb]
+
+/-- the verifier accepts the signer's block at its position -/
+theorem ver_step_ok (P : Prims) (hP : P.Lawful) (v : Version) (hv : v = v1 ∨ v = v2)
+    (signer hh c : Bytes) (f : Bool) (k : Nat) (inp : Bytes)
+    (hinp : attachedSignatureInput P v hh c k f = .ok inp)
+    (h1 : v = v1 → (c = [] ↔ f = true))
+    (h2 : v = v2 → c = [] → k = 0 ∧ f = true) :
+    Ver.step P ⟨v, hh, P.sigPub signer⟩ ⟨P.sign signer inp, c, f⟩ (1 + k) = .ok c ∧
+    Sign.blockFinal v ⟨P.sign signer inp, c, f⟩ = f := by
+  have hfin : Sign.blockFinal v ⟨P.sign signer inp, c, f⟩ = f := by
+    rcases hv with rfl | rfl
+    · simp only [Sign.blockFinal, v1, if_true]
+      have := h1 rfl
+      cases c with
+      | nil => simp at this; simp [this]
+      | cons a t => simp at this; simp [this]
+    · simp [Sign.blockFinal, v2]
+  refine ⟨?_, hfin⟩
+  have hpb : Sign.processBlock P ⟨v, hh, P.sigPub signer⟩ ⟨P.sign signer inp, c, f⟩ f (1 + k) = .ok () := by
+    unfold Sign.processBlock
+    simp only [Nat.add_sub_cancel_left]
+    rw [hinp]
+    simp [hP.verify_sign]
+  have hck : checkChunkState v c.length k f = .ok () := by
+    rcases hv with rfl | rfl
+    · have := h1 rfl
+      cases c with
+      | nil => simp at this; simp [checkChunkState, v1, this]
+      | cons a t => simp at this; simp [checkChunkState, v1, this]
+    · have := h2 rfl
+      cases c with
+      | nil => simp at this; simp [checkChunkState, v2, this]
+      | cons a t => simp [checkChunkState, v2]
+  unfold Ver.step
+  simp only [hfin, hpb, Nat.add_sub_cancel_left, hck]
+
+theorem attachedPackets_inv (P : Prims) (bs : Nat) (v : Version) (signer nonce msg : Bytes)
+    (h : SigHeader) (hb : Bytes) (blks : List SigBlock)
+    (hs : Sign.attachedPackets P bs v signer nonce msg = .ok (h, hb, blks)) :
+    h = Sign.header v (P.sigPub signer) mtAttached nonce ∧ hb = Msgpack.encode h.toVal ∧
+    Sign.blockStructs P v signer (P.hash hb) (chunkPlan v bs msg) 0 = .ok blks := by
+  unfold Sign.attachedPackets at hs
+  split at hs
+  · cases hs
+  · simp only [] at hs
+    split at hs
+    · cases hs
+    · rename_i blks' hb'
+      simp only [Except.ok.injEq, Prod.mk.injEq] at hs
+      obtain ⟨h1, h2, h3⟩ := hs
+      subst h1 h2 h3
+      exact ⟨rfl, rfl, hb'⟩
+
+theorem sign_validate_ok (v : Version) (hv : v = v1 ∨ v = v2) (pk nonce : Bytes) (typ : Int)
+    (ht : typ = mtAttached ∨ typ = mtDetached) :
+    Sign.validate knownMajor (Sign.header v pk typ nonce) typ = .ok () := by
+  have hkm : knownMajor v = true := by rcases hv with rfl | rfl <;> decide
+  have ht' : (typ != mtAttached && typ != mtDetached) = false := by
+    rcases ht with rfl | rfl <;> decide
+  simp [Sign.validate, Sign.header, hkm, ht']
+
+end RTSig
+open RTSig
 
 theorem sign_roundtrip (P : Prims) (hP : P.Lawful) (bs : Nat) (hbs : 0 < bs)
     (v : Version) (hv : v = v1 ∨ v = v2) (signer nonce msg : Bytes)
@@ -19,7 +229,34 @@ theorem sign_roundtrip (P : Prims) (hP : P.Lawful) (bs : Nat) (hbs : 0 < bs)
     (h : SigHeader) (hb : Bytes) (blks : List SigBlock)
     (hs : Sign.attachedPackets P bs v signer nonce msg = .ok (h, hb, blks)) :
     Sign.verifyAll P knownMajor kr (.ok hb h) ⟨blks.map some, .eof⟩ = .ok (P.sigPub signer, msg) := by
-  sorry
+  obtain ⟨hh, _, hblk⟩ := attachedPackets_inv P bs v signer nonce msg h hb blks hs
+  obtain ⟨hlen, hspec⟩ := sign_blockStructs_spec P v signer (P.hash hb) _ 0 blks hblk
+  have hval := sign_validate_ok v hv (P.sigPub signer) nonce mtAttached (Or.inl rfl)
+  have hmaj : (v.major != 1 && v.major != 2) = false := by rcases hv with rfl | rfl <;> decide
+  have hrun : Sign.run P ⟨v, P.hash hb, P.sigPub signer⟩ (blks.map some) .eof 1 = ⟨msg, none⟩ := by
+    rw [Ver.run_eq]
+    have := grun_zip (Ver.step P ⟨v, P.hash hb, P.sigPub signer⟩) (Sign.blockFinal v) blks
+      (chunkPlan v bs msg) 1 hlen (chunkPlan_ne_nil v bs msg) ?_ (chunkPlan_final_idx v bs msg)
+    · rw [this, chunkPlan_flatten]
+    · intro k b p hb' hp'
+      obtain ⟨inp, hinp, rfl⟩ := hspec k b p hb' hp'
+      rw [Nat.zero_add] at hinp
+      have hm : p ∈ chunkPlan v bs msg := List.mem_of_getElem? hp'
+      apply ver_step_ok P hP v hv signer (P.hash hb) p.1 p.2 k inp hinp
+      · intro e; subst e
+        exact chunkPlan_empty_v1 bs hbs msg p hm
+      · intro e he; subst e
+        have hmsg := (chunkPlan_empty_v2 bs hbs msg).1 p hm he
+        have hpl := (chunkPlan_empty_v2 bs hbs msg).2 hmsg
+        rw [hpl] at hp'
+        cases k with
+        | zero => simp at hp'; subst hp'; exact ⟨rfl, rfl⟩
+        | succ k => simp at hp'
+  subst hh
+  unfold Sign.verifyAll Sign.verifyStream
+  simp only [hval]
+  simp only [Sign.header, hk, hmaj, hrun]
+  rfl
 
 theorem sign_no_key (P : Prims) (bs : Nat)
     (v : Version) (hv : v = v1 ∨ v = v2) (signer nonce msg : Bytes)
@@ -28,13 +265,30 @@ theorem sign_no_key (P : Prims) (bs : Nat)
     (hs : Sign.attachedPackets P bs v signer nonce msg = .ok (h, hb, blks)) :
     Sign.verifyAll P knownMajor kr (.ok hb h) ⟨blks.map some, .eof⟩ = .error .noSenderKey ∧
     (Sign.verifyStream P knownMajor kr (.ok hb h) ⟨blks.map some, .eof⟩).released = [] := by
-  sorry
+  obtain ⟨hh, _, _⟩ := attachedPackets_inv P bs v signer nonce msg h hb blks hs
+  have hval := sign_validate_ok v hv (P.sigPub signer) nonce mtAttached (Or.inl rfl)
+  subst hh
+  have hvs : Sign.verifyStream P knownMajor kr (.ok hb (Sign.header v (P.sigPub signer) mtAttached nonce))
+      ⟨blks.map some, .eof⟩ = ⟨none, [], some .noSenderKey⟩ := by
+    unfold Sign.verifyStream
+    simp only [hval]
+    simp only [Sign.header, hk]
+  unfold Sign.verifyAll
+  rw [hvs]
+  exact ⟨rfl, rfl⟩
 
 theorem attachedPackets_ok (P : Prims) (bs : Nat) (v : Version) (hv : v = v1 ∨ v = v2)
     (signer nonce msg : Bytes) :
     ∃ h hb blks, Sign.attachedPackets P bs v signer nonce msg = .ok (h, hb, blks) ∧
       blks.length = (chunkPlan v bs msg).length := by
-  sorry
+  have hkv : knownVersion v = true := by rcases hv with rfl | rfl <;> decide
+  obtain ⟨blks, hblk⟩ := sign_blockStructs_ok P v hv signer
+    (P.hash (Msgpack.encode (Sign.header v (P.sigPub signer) mtAttached nonce).toVal)) (chunkPlan v bs msg) 0
+  refine ⟨Sign.header v (P.sigPub signer) mtAttached nonce,
+    Msgpack.encode (Sign.header v (P.sigPub signer) mtAttached nonce).toVal, blks, ?_,
+    (sign_blockStructs_spec P v signer _ _ 0 blks hblk).1⟩
+  unfold Sign.attachedPackets
+  simp only [hkv, Bool.not_true, Bool.false_eq_true, if_false, hblk]
 
 /-! ## detached signatures -/
 
@@ -45,7 +299,11 @@ theorem detached_roundtrip (P : Prims) (hP : P.Lawful)
     let hb := Msgpack.encode h.toVal
     Sign.verifyDetached P knownMajor kr (.ok hb h)
         (.sig (P.sign signer (detachedSignatureInput P (P.hash hb) msg))) msg = .ok (P.sigPub signer) := by
-  sorry
+  intro h hb
+  have hval := sign_validate_ok v hv (P.sigPub signer) nonce mtDetached (Or.inr rfl)
+  unfold Sign.verifyDetached
+  simp only [h, hval]
+  simp only [Sign.header, hk, hP.verify_sign, if_true]
 
 /-- a detached verification can succeed only through a signature check on
     exactly `domain_detached ‖ hash(hash(header bytes) ‖ message)` under the key
@@ -58,9 +316,389 @@ theorem detached_sound (P : Prims) (valid : Validator) (kr : Keyring)
       h.formatName = Gen.c_sp_FormatName ∧ valid h.version = true ∧ h.typ = mtDetached ∧
       kr.lookupSigningPublicKey h.senderPublic = some k ∧
       P.verify k (Gen.c_sp_signatureDetachedString ++ P.hash (P.hash hb ++ msg)) sg = true := by
-  sorry
+  unfold Sign.verifyDetached at hok
+  split at hok
+  · cases hok
+  · cases hok
+  · rename_i hb h
+    split at hok
+    · cases hok
+    · rename_i hval
+      split at hok
+      · cases hok
+      · rename_i sg
+        split at hok
+        · cases hok
+        · rename_i pk hpk
+          split at hok
+          · rename_i hver
+            simp only [Except.ok.injEq] at hok
+            subst hok
+            refine ⟨hb, h, sg, rfl, rfl, ?_, ?_, ?_, hpk, hver⟩
+            all_goals
+              unfold Sign.validate at hval
+              split at hval
+              · cases hval
+              · split at hval
+                · cases hval
+                · split at hval
+                  · cases hval
+                  · simp_all
+          · cases hok
 
 /-! ## signcryption -/
+
+namespace RTSig
+
+section signcryption
+open Signcrypt
+
+theorem sc_sealPackets_inv (P : Prims) (bs : Nat) (sender : Option Bytes) (rs : List Signcrypt.Recipient)
+    (eph payloadKey pt : Bytes) (h : EncHeader) (hb : Bytes) (blks : List SigncryptBlock)
+    (hseal : Signcrypt.sealPackets P bs sender rs eph payloadKey pt = .ok (h, hb, blks)) :
+    h = Signcrypt.header P sender eph payloadKey rs ∧ hb = Msgpack.encode h.toVal ∧
+    Signcrypt.blockStructs P sender payloadKey (P.hash hb) (chunkPlan v2 bs pt) 0 = .ok blks := by
+  unfold Signcrypt.sealPackets at hseal
+  split at hseal
+  · cases hseal
+  · simp only [] at hseal
+    split at hseal
+    · cases hseal
+    · rename_i blks' hb'
+      simp only [Except.ok.injEq, Prod.mk.injEq] at hseal
+      obtain ⟨h1, h2, h3⟩ := hseal
+      subst h1 h2 h3
+      exact ⟨rfl, rfl, hb'⟩
+
+theorem receiverEntries_length (P : Prims) (eph pk : Bytes) :
+    ∀ (rs : List Signcrypt.Recipient) (n : Nat), (Signcrypt.receiverEntries P eph pk rs n).length = rs.length := by
+  intro rs
+  induction rs with
+  | nil => intro n; rfl
+  | cons r rt ih => intro n; simp [Signcrypt.receiverEntries, ih]
+
+theorem receiverEntries_getElem? (P : Prims) (eph pk : Bytes) :
+    ∀ (rs : List Signcrypt.Recipient) (n j : Nat),
+      (Signcrypt.receiverEntries P eph pk rs n)[j]? = (rs[j]?).map (Signcrypt.receiverEntry P eph pk (n + j)) := by
+  intro rs
+  induction rs with
+  | nil => intro n j; simp [Signcrypt.receiverEntries]
+  | cons r rt ih =>
+    intro n j
+    cases j with
+    | zero => simp [Signcrypt.receiverEntries]
+    | succ j =>
+      simp only [Signcrypt.receiverEntries, List.getElem?_cons_succ, ih]
+      rw [show n + 1 + j = n + (j + 1) by omega]
+
+theorem derivedKey_comm (P : Prims) (hP : P.Lawful) (a b : Bytes) :
+    Signcrypt.derivedKeyFromBoxKeys P (P.boxPub a) b = Signcrypt.derivedKeyFromBoxKeys P (P.boxPub b) a := by
+  unfold Signcrypt.derivedKeyFromBoxKeys Prims.box
+  rw [hP.dh_comm]
+
+/-! ### sender blocks, receiver step -/
+
+/-- the signature the sender puts in front of chunk `k` -/
+def scSig (P : Prims) (sender : Option Bytes) (hh : Bytes) (k : Nat) (c : Bytes) (f : Bool) : Bytes :=
+  match sender with
+  | none => zeros 64
+  | some s => P.sign s (signcryptionSignatureInput P hh (Nonce.chunkSigncryption hh f k) f c)
+
+theorem scSig_length (P : Prims) (hP : P.Lawful) (sender : Option Bytes) (hh : Bytes) (k : Nat) (c : Bytes) (f : Bool) :
+    (scSig P sender hh k c f).length = 64 := by
+  cases sender with
+  | none => simp [scSig, zeros]
+  | some s => simp [scSig, hP.sig_len]
+
+theorem sc_blockStructs_spec (P : Prims) (sender : Option Bytes) (pk hh : Bytes) :
+    ∀ (plan : List (Bytes × Bool)) (i : Nat) (blks : List SigncryptBlock),
+      Signcrypt.blockStructs P sender pk hh plan i = .ok blks →
+      blks.length = plan.length ∧
+      ∀ k b p, blks[k]? = some b → plan[k]? = some p →
+        b = (⟨P.sbSeal pk (Nonce.chunkSigncryption hh p.2 (i + k)) (scSig P sender hh (i + k) p.1 p.2 ++ p.1), p.2⟩ : SigncryptBlock) := by
+  intro plan
+  induction plan with
+  | nil =>
+    intro i blks h
+    simp only [Signcrypt.blockStructs, Except.ok.injEq] at h
+    subst h
+    simp
+  | cons p pt ih =>
+    intro i blks h
+    obtain ⟨c, f⟩ := p
+    simp only [Signcrypt.blockStructs] at h
+    split at h
+    · rename_i b bs' hb hbs'
+      simp only [Except.ok.injEq] at h
+      subst h
+      obtain ⟨hl, hk⟩ := ih (i + 1) bs' hbs'
+      refine ⟨by simp [hl], ?_⟩
+      intro k b' p' hb' hp'
+      cases k with
+      | zero =>
+        simp only [List.getElem?_cons_zero, Option.some.injEq] at hb' hp'
+        subst hb' hp'
+        unfold Signcrypt.blockStruct at hb
+        split at hb
+        · cases hb
+        · simp only [Except.ok.injEq] at hb
+          rw [← hb]
+          rfl
+      | succ k =>
+        simp only [List.getElem?_cons_succ] at hb' hp'
+        have := hk k b' p' hb' hp'
+        rw [show i + (k + 1) = i + 1 + k by omega]
+        exact this
+    · cases h
+    · cases h
+
+theorem sc_step_ok (P : Prims) (hP : P.Lawful) (sender : Option Bytes) (pk hh c : Bytes) (f : Bool) (k : Nat)
+    (hk : blockNumberOK k = true) (hc : c = [] → k = 0 ∧ f = true) :
+    Sc.step P ⟨pk, hh, sender.map P.sigPub⟩
+      ⟨P.sbSeal pk (Nonce.chunkSigncryption hh f k) (scSig P sender hh k c f ++ c), f⟩ (1 + k) = .ok c := by
+  have hlen := scSig_length P hP sender hh k c f
+  have hpb : Signcrypt.processBlock P ⟨pk, hh, sender.map P.sigPub⟩
+      ⟨P.sbSeal pk (Nonce.chunkSigncryption hh f k) (scSig P sender hh k c f ++ c), f⟩ (1 + k) = .ok c := by
+    unfold Signcrypt.processBlock
+    simp only [Nat.add_sub_cancel_left, hk, hP.sb_open_seal, Bool.not_true, Bool.false_eq_true, if_false]
+    have hl : ¬ ((scSig P sender hh k c f ++ c).length < 64) := by
+      rw [List.length_append]; omega
+    simp only [hl, if_false, List.take_left' hlen, List.drop_left' hlen]
+    cases sender with
+    | none => rfl
+    | some s =>
+      simp only [Option.map_some, scSig, hP.verify_sign, if_true]
+  have hck : checkChunkState v2 c.length k f = .ok () := by
+    cases c with
+    | nil => have := hc rfl; simp [checkChunkState, v2, this]
+    | cons a t => simp [checkChunkState, v2]
+  unfold Sc.step
+  simp only [hpb, Nat.add_sub_cancel_left, hck]
+
+theorem sc_run_ok (P : Prims) (hP : P.Lawful) (bs : Nat) (hbs : 0 < bs) (sender : Option Bytes)
+    (pk hh pt : Bytes) (hblocks : (chunkPlan v2 bs pt).length < 2 ^ 64 - 1) (blks : List SigncryptBlock)
+    (hblk : Signcrypt.blockStructs P sender pk hh (chunkPlan v2 bs pt) 0 = .ok blks) :
+    Signcrypt.run P ⟨pk, hh, sender.map P.sigPub⟩ (blks.map some) .eof 1 = ⟨pt, none⟩ := by
+  obtain ⟨hlen, hspec⟩ := sc_blockStructs_spec P sender pk hh _ 0 blks hblk
+  rw [Sc.run_eq]
+  have := grun_zip (Sc.step P ⟨pk, hh, sender.map P.sigPub⟩) (·.final) blks
+    (chunkPlan v2 bs pt) 1 hlen (chunkPlan_ne_nil v2 bs pt) ?_ (chunkPlan_final_idx v2 bs pt)
+  · rw [this, chunkPlan_flatten]
+  · intro k b p hb' hp'
+    have hb := hspec k b p hb' hp'
+    rw [Nat.zero_add] at hb
+    subst hb
+    have hm : p ∈ chunkPlan v2 bs pt := List.mem_of_getElem? hp'
+    have hklt : k < (chunkPlan v2 bs pt).length := by
+      by_cases hlt : k < (chunkPlan v2 bs pt).length
+      · exact hlt
+      · rw [List.getElem?_eq_none (by omega)] at hp'; cases hp'
+    refine ⟨sc_step_ok P hP sender pk hh p.1 p.2 k ?_ ?_, rfl⟩
+    · simp only [blockNumberOK, decide_eq_true_eq]; omega
+    · intro he
+      have hmsg := (chunkPlan_empty_v2 bs hbs pt).1 p hm he
+      have hpl := (chunkPlan_empty_v2 bs hbs pt).2 hmsg
+      rw [hpl] at hp'
+      cases k with
+      | zero => simp at hp'; subst hp'; exact ⟨rfl, rfl⟩
+      | succ k => simp at hp'
+
+end signcryption
+
+section signcryption_header
+open Signcrypt
+
+/-- the payload-key search of `processHeader` -/
+def scFindKey (P : Prims) (kr : Keyring) (res : Signcrypt.Resolver) (h : EncHeader) (eph : Bytes) :
+    Except Err (Option Bytes) :=
+  match Signcrypt.tryBox P (kr.getAllBoxSecretKeys.map (fun sk => Signcrypt.derivedKeyFromBoxKeys P eph sk))
+      h.receivers.zipIdx with
+  | .error e => .error e
+  | .ok (some pk) => .ok (some pk)
+  | .ok none => Signcrypt.trySym P res h eph
+
+/-- what `processHeader` does once the search has ended -/
+def scHeaderTail (P : Prims) (kr : Keyring) (headerHash : Bytes) (h : EncHeader) (log : List KeyCall)
+    (pk? : Except Err (Option Bytes)) : Decrypt.Logged Signcrypt.State :=
+  match pk? with
+  | .error e => (log, .error e)
+  | .ok none => (log, .error .noDecryptionKey)
+  | .ok (some pk) =>
+    match P.sbOpen pk Nonce.senderKeySecretBox h.senderSecretbox with
+    | none => (log, .error .badSenderKeySecretbox)
+    | some senderKey =>
+      if senderKey.all (· == 0) then (log, .ok ⟨pk, headerHash, none⟩)
+      else match kr.lookupSigningPublicKey senderKey with
+        | none => (log, .error .noSenderKey)
+        | some spk => (log, .ok ⟨pk, headerHash, some spk⟩)
+
+theorem sc_processHeader_eq (P : Prims) (kr : Keyring) (res : Signcrypt.Resolver) (hh : Bytes) (h : EncHeader)
+    (hv : Signcrypt.validate h = .ok ()) (eph : Bytes) (hi : kr.importBoxEphemeralKey h.ephemeral = some eph) :
+    Signcrypt.processHeader P kr res hh h =
+      scHeaderTail P kr hh h
+        (kr.getAllBoxSecretKeys.map (fun sk => KeyCall.box sk eph Nonce.derivedSharedKey (zeros 32)))
+        (scFindKey P kr res h eph) := by
+  unfold Signcrypt.processHeader
+  rw [hv]
+  simp only []
+  rw [hi]
+  rfl
+
+theorem sc_validate_header (P : Prims) (sender : Option Bytes) (eph pk : Bytes) (rs : List Signcrypt.Recipient) :
+    Signcrypt.validate (Signcrypt.header P sender eph pk rs) = .ok () := by
+  simp [Signcrypt.validate, Signcrypt.header, v2]
+
+theorem zeros_all_zero (n : Nat) : (zeros n).all (· == 0) = true := by
+  simp [zeros]
+
+/-- header processing after the payload key has been recovered -/
+theorem sc_processHeader_found (P : Prims) (hP : P.Lawful) (sks : List Bytes) (res : Signcrypt.Resolver)
+    (hh : Bytes) (sender : Option Bytes) (eph pk : Bytes) (rs : List Signcrypt.Recipient)
+    (hsender : ∀ s, sender = some s → ¬ ((P.sigPub s).all (· == 0)))
+    (hfind : scFindKey P (faithfulKeyring P sks) res (Signcrypt.header P sender eph pk rs) (P.boxPub eph) = .ok (some pk)) :
+    ∃ log, Signcrypt.processHeader P (faithfulKeyring P sks) res hh (Signcrypt.header P sender eph pk rs) =
+      (log, .ok ⟨pk, hh, sender.map P.sigPub⟩) := by
+  refine ⟨(faithfulKeyring P sks).getAllBoxSecretKeys.map
+    (fun sk => KeyCall.box sk (P.boxPub eph) Nonce.derivedSharedKey (zeros 32)), ?_⟩
+  rw [sc_processHeader_eq P _ res hh _ (sc_validate_header P sender eph pk rs) (P.boxPub eph) rfl, hfind]
+  unfold scHeaderTail
+  simp only [Signcrypt.header, hP.sb_open_seal]
+  cases sender with
+  | none => simp only [zeros_all_zero, if_true, Option.map_none]
+  | some s =>
+    have := hsender s rfl
+    simp only [this, faithfulKeyring, Option.map_some, Bool.false_eq_true, if_false]
+
+theorem sc_processHeader_none (P : Prims) (sks : List Bytes) (res : Signcrypt.Resolver)
+    (hh : Bytes) (sender : Option Bytes) (eph pk : Bytes) (rs : List Signcrypt.Recipient)
+    (hfind : scFindKey P (faithfulKeyring P sks) res (Signcrypt.header P sender eph pk rs) (P.boxPub eph) = .ok none) :
+    ∃ log, Signcrypt.processHeader P (faithfulKeyring P sks) res hh (Signcrypt.header P sender eph pk rs) =
+      (log, .error .noDecryptionKey) := by
+  refine ⟨(faithfulKeyring P sks).getAllBoxSecretKeys.map
+    (fun sk => KeyCall.box sk (P.boxPub eph) Nonce.derivedSharedKey (zeros 32)), ?_⟩
+  rw [sc_processHeader_eq P _ res hh _ (sc_validate_header P sender eph pk rs) (P.boxPub eph) rfl, hfind]
+  rfl
+
+/-- header + blocks once the payload-key search succeeds -/
+theorem sc_open_found (P : Prims) (hP : P.Lawful) (bs : Nat) (hbs : 0 < bs)
+    (sender : Option Bytes) (rs : List Signcrypt.Recipient) (eph payloadKey pt : Bytes)
+    (hsender : ∀ s, sender = some s → ¬ ((P.sigPub s).all (· == 0)))
+    (hblocks : (chunkPlan v2 bs pt).length < 2 ^ 64 - 1)
+    (h : EncHeader) (hb : Bytes) (blks : List SigncryptBlock)
+    (hseal : Signcrypt.sealPackets P bs sender rs eph payloadKey pt = .ok (h, hb, blks))
+    (sks : List Bytes) (res : Signcrypt.Resolver)
+    (hfind : scFindKey P (faithfulKeyring P sks) res (Signcrypt.header P sender eph payloadKey rs) (P.boxPub eph)
+      = .ok (some payloadKey)) :
+    Signcrypt.openAll P (faithfulKeyring P sks) res (.ok hb h) ⟨blks.map some, .eof⟩ =
+      .ok (sender.map P.sigPub, pt) := by
+  obtain ⟨hh, _, hblk⟩ := sc_sealPackets_inv P bs sender rs eph payloadKey pt h hb blks hseal
+  subst hh
+  obtain ⟨log, hph⟩ := sc_processHeader_found P hP sks res (P.hash hb) sender eph payloadKey rs hsender hfind
+  have hrun := sc_run_ok P hP bs hbs sender payloadKey (P.hash hb) pt hblocks blks hblk
+  unfold Signcrypt.openAll Signcrypt.openStream
+  simp only [hph, hrun]
+
+end signcryption_header
+
+section signcryption_search
+open Signcrypt
+
+theorem tryBox_nil (P : Prims) : ∀ l : List (RecvKeys × Nat), Signcrypt.tryBox P [] l = .ok none := by
+  intro l
+  induction l with
+  | nil => rfl
+  | cons x t ih =>
+    obtain ⟨r, i⟩ := x
+    simp only [Signcrypt.tryBox, Signcrypt.tryBoxOne, ih]
+
+theorem tryBox_found (P : Prims) (dks : List Bytes) (pk : Bytes) :
+    ∀ (l : List RecvKeys) (n i : Nat),
+      (∀ j r, j < i → l[j]? = some r → Signcrypt.tryBoxOne P dks r (n + j) = none) →
+      (∃ r, l[i]? = some r ∧ Signcrypt.tryBoxOne P dks r (n + i) = some (.ok pk)) →
+      Signcrypt.tryBox P dks (l.zipIdx n) = .ok (some pk) := by
+  intro l
+  induction l with
+  | nil => intro n i _ ⟨r, hr, _⟩; simp at hr
+  | cons a t ih =>
+    intro n i hlt ⟨r, hr, hrr⟩
+    rw [List.zipIdx_cons]
+    cases i with
+    | zero =>
+      simp only [List.getElem?_cons_zero, Option.some.injEq] at hr
+      subst hr
+      rw [Nat.add_zero] at hrr
+      simp only [Signcrypt.tryBox, hrr]
+    | succ i =>
+      have h0 := hlt 0 a (by omega) rfl
+      rw [Nat.add_zero] at h0
+      simp only [Signcrypt.tryBox, h0]
+      apply ih (n + 1) i
+      · intro j r' hj hr'
+        have := hlt (j + 1) r' (by omega) (by simpa using hr')
+        rw [show n + 1 + j = n + (j + 1) by omega]
+        exact this
+      · refine ⟨r, by simpa using hr, ?_⟩
+        rw [show n + 1 + i = n + (i + 1) by omega]
+        exact hrr
+
+theorem trySym_go_found (P : Prims) (ephPub pk : Bytes) (hpk : pk.length = 32) :
+    ∀ (keys : List (Option Bytes)) (l : List RecvKeys) (n : Nat),
+      keys.length = l.length →
+      (∃ (j : Nat) (k : Bytes), keys[j]? = some (some k)) →
+      (∀ j k r, keys[j]? = some (some k) → l[j]? = some r →
+        P.sbOpen (Signcrypt.symDerivedKey P ephPub k) (Nonce.payloadKeyBoxV2 (n + j)) r.box = some pk) →
+      Signcrypt.trySym.go P ephPub (keys.zip (l.zipIdx n)) = .ok (some pk) := by
+  intro keys
+  induction keys with
+  | nil => intro l n _ ⟨j, k, hjk⟩; simp at hjk
+  | cons a t ih =>
+    intro l n hl hex hopen
+    cases l with
+    | nil => simp at hl
+    | cons r lt =>
+      rw [List.zipIdx_cons, List.zip_cons_cons]
+      cases a with
+      | none =>
+        simp only [Signcrypt.trySym.go]
+        apply ih lt (n + 1) (by simpa using hl)
+        · obtain ⟨j, k, hjk⟩ := hex
+          cases j with
+          | zero => simp at hjk
+          | succ j => exact ⟨j, k, by simpa using hjk⟩
+        · intro j k r' hk hr'
+          have := hopen (j + 1) k r' (by simpa using hk) (by simpa using hr')
+          rw [show n + 1 + j = n + (j + 1) by omega]
+          exact this
+      | some k =>
+        have := hopen 0 k r rfl rfl
+        rw [Nat.add_zero] at this
+        simp [Signcrypt.trySym.go, this, hpk]
+
+theorem trySym_go_none (P : Prims) (ephPub : Bytes) :
+    ∀ (keys : List (Option Bytes)) (l : List (RecvKeys × Nat)),
+      (∀ x ∈ keys, x = none) →
+      Signcrypt.trySym.go P ephPub (keys.zip l) = .ok none := by
+  intro keys
+  induction keys with
+  | nil => intro l _; simp [Signcrypt.trySym.go]
+  | cons a t ih =>
+    intro l hall
+    cases l with
+    | nil => simp [Signcrypt.trySym.go]
+    | cons x lt =>
+      have ha : a = none := hall a (by simp)
+      subst ha
+      obtain ⟨r, i⟩ := x
+      rw [List.zip_cons_cons]
+      simp only [Signcrypt.trySym.go]
+      exact ih lt (fun y hy => hall y (by simp [hy]))
+
+theorem sc_header_receivers (P : Prims) (sender : Option Bytes) (eph pk : Bytes) (rs : List Signcrypt.Recipient) :
+    (Signcrypt.header P sender eph pk rs).receivers = Signcrypt.receiverEntries P eph pk rs 0 := rfl
+
+end signcryption_search
+
+end RTSig
 
 open Signcrypt in
 /-- box-key recipient at position `i`; `NoIdentifierCollision`: the opener's
@@ -77,7 +715,25 @@ theorem sc_roundtrip_box (P : Prims) (hP : P.Lawful) (bs : Nat) (hbs : 0 < bs)
         Decrypt.kidOf (h.receivers.getD j default)) :
     Signcrypt.openAll P (faithfulKeyring P [sk]) none (.ok hb h) ⟨blks.map some, .eof⟩ =
       .ok (sender.map P.sigPub, pt) := by
-  sorry
+  apply sc_open_found P hP bs hbs sender rs eph payloadKey pt hsender hblocks h hb blks hseal
+  obtain ⟨hh, _, _⟩ := sc_sealPackets_inv P bs sender rs eph payloadKey pt h hb blks hseal
+  subst hh
+  have hrsi : rs[i]? = some (.box (P.boxPub sk)) := by
+    rw [← hsk, List.getD_eq_getElem?_getD, List.getElem?_eq_getElem hi]; rfl
+  have htb : Signcrypt.tryBox P [Signcrypt.derivedKeyFromBoxKeys P (P.boxPub eph) sk]
+      ((Signcrypt.receiverEntries P eph payloadKey rs 0).zipIdx 0) = .ok (some payloadKey) := by
+    apply tryBox_found P _ payloadKey _ 0 i
+    · intro j r hj hr
+      have := hnc j hj
+      rw [sc_header_receivers, List.getD_eq_getElem?_getD, hr] at this
+      simp only [Option.getD_some] at this
+      simp [Signcrypt.tryBoxOne, this]
+    · refine ⟨_, by rw [receiverEntries_getElem?, hrsi]; rfl, ?_⟩
+      simp only [Signcrypt.receiverEntry, derivedKey_comm P hP sk eph, Nat.zero_add]
+      simp [Signcrypt.tryBoxOne, Decrypt.kidOf, hP.sb_open_seal, hpk]
+  unfold scFindKey
+  simp only [sc_header_receivers, faithfulKeyring, List.map_cons, List.map_nil]
+  rw [htb]
 
 /-- symmetric-key recipients: the resolver resolves some identifiers, each to
     the true key of that entry, and at least one -/
@@ -94,7 +750,26 @@ theorem sc_roundtrip_sym (P : Prims) (hP : P.Lawful) (bs : Nat) (hbs : 0 < bs)
     (hsome : ∃ (j : Nat) (k : Bytes), keys[j]? = some (some k)) :
     Signcrypt.openAll P (faithfulKeyring P []) (some f) (.ok hb h) ⟨blks.map some, .eof⟩ =
       .ok (sender.map P.sigPub, pt) := by
-  sorry
+  apply sc_open_found P hP bs hbs sender rs eph payloadKey pt hsender hblocks h hb blks hseal
+  obtain ⟨hh, _, _⟩ := sc_sealPackets_inv P bs sender rs eph payloadKey pt h hb blks hseal
+  subst hh
+  have hlen' : keys.length = (Signcrypt.receiverEntries P eph payloadKey rs 0).length := by
+    rw [receiverEntries_length, hlen]
+  have hgo : Signcrypt.trySym.go P (P.boxPub eph)
+      (keys.zip ((Signcrypt.receiverEntries P eph payloadKey rs 0).zipIdx 0)) = .ok (some payloadKey) := by
+    apply trySym_go_found P (P.boxPub eph) payloadKey hpk keys _ 0 hlen' hsome
+    intro j k r hk hr
+    obtain ⟨ident, hid⟩ := htrue j k hk
+    rw [receiverEntries_getElem?, hid] at hr
+    simp only [Option.map_some, Option.some.injEq] at hr
+    subst hr
+    simp only [Signcrypt.receiverEntry, hP.sb_open_seal]
+  unfold scFindKey
+  simp only [faithfulKeyring, List.map_nil, tryBox_nil]
+  unfold Signcrypt.trySym
+  rw [sc_header_receivers] at hf ⊢
+  simp only [hf, List.length_map, hlen']
+  simpa using hgo
 
 /-- no box key, nothing resolved: `noDecryptionKey`, no plaintext -/
 theorem sc_no_key (P : Prims) (bs : Nat)
@@ -105,6 +780,23 @@ theorem sc_no_key (P : Prims) (bs : Nat)
     (hf : f (h.receivers.map Decrypt.kidOf) = .ok (rs.map (fun _ => none))) :
     Signcrypt.openAll P (faithfulKeyring P []) (some f) (.ok hb h) ⟨blks.map some, .eof⟩ =
       .error .noDecryptionKey := by
-  sorry
+  obtain ⟨hh, _, _⟩ := sc_sealPackets_inv P bs sender rs eph payloadKey pt h hb blks hseal
+  subst hh
+  have hfind : scFindKey P (faithfulKeyring P []) (some f) (Signcrypt.header P sender eph payloadKey rs)
+      (P.boxPub eph) = .ok none := by
+    unfold scFindKey
+    simp only [faithfulKeyring, List.map_nil, tryBox_nil]
+    unfold Signcrypt.trySym
+    rw [sc_header_receivers] at hf ⊢
+    simp only [hf, List.length_map, receiverEntries_length]
+    simp only [bne_self_eq_false, Bool.false_eq_true, if_false]
+    apply trySym_go_none
+    intro x hx
+    simp only [List.mem_map] at hx
+    obtain ⟨_, _, rfl⟩ := hx
+    rfl
+  obtain ⟨log, hph⟩ := sc_processHeader_none P [] (some f) (P.hash hb) sender eph payloadKey rs hfind
+  unfold Signcrypt.openAll Signcrypt.openStream
+  simp only [hph]
 
 end Saltpack.Proofs
